@@ -296,7 +296,7 @@ Section Ref.
     match pc st with
     | PVisit i | PPolled i => sc st = Some i
     | PWait i _ => sc st = Some (S i)
-    | PHead | PYield => sc st = None
+    | PHead | PYield _ => sc st = None
     | PFinally x | PTerm x _ | PJoin x _ | PDrop x | PExited x =>
       match x with XNormal | XRaisedHead | XAbandon => sc st = None | _ => True end
     end.
@@ -365,6 +365,7 @@ Section Ref.
     - des S; inv_some S; pcsolve HP.
     - des S; inv_some S; pcsolve HP.
     - des S; inv_some S; unfold PcSc; cbn; auto.
+    - des S; inv_some S; pcsolve HP.
   Qed.
 
   Lemma proj_step_noev : forall st l acc, evs_of c st l = [] -> l <> OEndScan -> proj_step c st l acc = acc.
@@ -440,6 +441,7 @@ Section Ref.
       rewrite proj_step_noev; [|reflexivity|discriminate]. unfold PcSc in HP.
       destruct (pc st) eqn:Epc; try discriminate S. destruct (nth_error p i) as [s|] eqn:En; [|discriminate S]. rewrite HP in R.
       des S; inv_some S; cbn; apply RI_visit; assumption.
+    - (* ONext *) rewrite proj_step_noev; [|reflexivity|discriminate]. des S; inv_some S; exact R.
   Qed.
 
   Lemma G_init : G pinit ([], []).
